@@ -279,6 +279,7 @@ def run(run, ix, tier):
     check_gamma3_reentry(run, ix)
     check_break_escalation(run, ix)
     check_agm_iteration(run, ix)
+    check_zero_tolerance(run, ix)
     # ---- T-R5 / T-R6: iteration and precision caps --------------------------------
     run.rule('T-R5', floor=18, desc='loops that rely on a cap keep it inside the loop')
     run.rule('T-R6', floor=18, desc='the cap comparison is not made infeasible by a clamp')
@@ -760,3 +761,66 @@ def check_agm_iteration(run, ix):
                          'the zero / opposite-pair guards are tested only before the loop and the principal square '
                          'root is taken at every step: agm(-1, -1) goes (-1, 1), (0, i), (i/2, 0), (i/4, 0), ... and '
                          'never meets |a - b| < eps |a|', line=loop.lineno))
+
+
+# --------------------------------------------------------------------------- T-R13
+def check_zero_tolerance(run, ix):
+    """T-R13.  Several series are summed "until a term is below eps times the leading term": `tol = ctx.eps*abs(term)`
+    before a `while 1` whose only exit is `abs(term) < tol`.  When the leading term carries a factor `n**d` with n the
+    summation index itself (not 2n+1 or the like) it is exactly zero at n == 0, the tolerance is zero and the strict
+    comparison can never hold: the loop runs forever.  Such a tolerance must be assigned under a test that the index
+    is non-zero (with a fallback for n == 0), as _djacobi_theta3a does."""
+    run.rule('T-R13', floor=1, desc='a relative tolerance is not taken from a term that vanishes at index 0')
+    judged = 0
+    for rel, m in sorted(ix.modules.items()):
+        if not rel.startswith('mpmath/functions/'):
+            continue
+        for f in m.funcs.values():
+            if f.parent is not None or not isinstance(f.node, ast.FunctionDef):
+                continue
+            body = f.node.body
+            # summation indices: names stepped by +-1 inside a `while 1`
+            idx = set()
+            for lp in _walk_own(f.node):
+                if isinstance(lp, ast.While) and isinstance(lp.test, ast.Constant):
+                    for a in lp.body:
+                        if isinstance(a, ast.AugAssign) and isinstance(a.target, ast.Name) and \
+                                isinstance(a.value, ast.Constant) and a.value.value == 1:
+                            idx.add(a.target.id)
+            if not idx:
+                continue
+            last = {}
+
+            def scan(stmts, guards):
+                nonlocal judged
+                for st in stmts:
+                    if isinstance(st, ast.Assign):
+                        # tolerance?
+                        v = st.value
+                        if isinstance(v, ast.BinOp) and isinstance(v.op, ast.Mult) and 'eps' in norm(v) and \
+                                any(isinstance(c, ast.Call) and norm(c.func) == 'abs' for c in ast.walk(v)):
+                            absarg = [c.args[0] for c in ast.walk(v) if isinstance(c, ast.Call) and norm(c.func) == 'abs'][0]
+                            src = last.get(absarg.id) if isinstance(absarg, ast.Name) else absarg
+                            if src is not None:
+                                bases = [p.left.id for p in ast.walk(src) if isinstance(p, ast.BinOp) and isinstance(p.op, ast.Pow)
+                                         and isinstance(p.left, ast.Name) and p.left.id in idx]
+                                if bases:
+                                    judged += 1
+                                    n_ = bases[0]
+                                    ok = any(norm(g) in ('%s != 0' % n_, n_, '%s' % n_) for g in guards)
+                                    if ok:
+                                        run.ok('T-R13', '%s: `%s` only where %s != 0' % (f.name, norm(st), n_))
+                                    else:
+                                        run.fail(Finding('T-R13', rel, f.qualname, norm(st), 'the tolerance is eps times a '
+                                                         'term with the factor `%s**...`, which is exactly zero when the '
+                                                         'series starts at %s == 0: the loop exit `abs(term) < tolerance` '
+                                                         'can then never be taken (jtheta(3, 0.3+0.5j, 0.5, 1) never '
+                                                         'returns)' % (n_, n_), line=st.lineno))
+                        for t in st.targets:
+                            for nm in ([t] if isinstance(t, ast.Name) else []):
+                                last[nm.id] = st.value
+                    elif isinstance(st, ast.If):
+                        scan(st.body, guards + [st.test])
+                        scan(st.orelse, guards)
+            scan(body, [])
+    run.stats['zero_tolerance_sites'] = judged
